@@ -12,10 +12,10 @@ pub fn run(ctx: &Ctx, walk: bool) -> i32 {
     // profile plan: (profile, family filter)
     let mut plan: Vec<(&str, Box<dyn Fn(&str) -> bool>)> = vec![("checked", Box::new(|_| true))];
     if thorough {
-        plan.push(("unopt", Box::new(|n: &str| n.starts_with("M2-field") || n.starts_with("M3") || n.starts_with("M5") || n.starts_with("M6") || n.starts_with("M4"))));
-        plan.push(("plain", Box::new(|n: &str| n.starts_with("M2-field") || n.starts_with("M3") || n.starts_with("M6"))));
+        plan.push(("unopt", Box::new(|n: &str| n.starts_with("M2-field") || n.starts_with("M3") || n.starts_with("M7") || n.starts_with("M5") || n.starts_with("M6") || n.starts_with("M4"))));
+        plan.push(("plain", Box::new(|n: &str| n.starts_with("M2-field") || n.starts_with("M3") || n.starts_with("M7") || n.starts_with("M6"))));
     } else if !walk {
-        plan.push(("unopt", Box::new(|n: &str| n.starts_with("M3") || n == "M2-field-b1" || n == "M2-field-b3")));
+        plan.push(("unopt", Box::new(|n: &str| n.starts_with("M3") || n.starts_with("M7") || n == "M2-field-b1" || n == "M2-field-b3")));
     }
     let loaded = AtomicU64::new(0);
     let refused = AtomicU64::new(0);
